@@ -351,7 +351,7 @@ func init() {
 		ID: "C05", Level: "model_checking",
 		Rule: "explorer C: for every scenario (2 threads, thorough also 3, sharing ONE compiled expression with their own navigators on different context nodes, over ~110 expressions covering every query-node type and every function closure; concurrent Compile of expressions with constant matches() patterns against a small RegexpCache; concurrent Compile / CompileWithNS of plain expressions (valid and invalid) followed by use; string-building functions sharing the builder pool) EVERY interleaving up to the preemption bound (quick: 1 for plain paths and regex-compile bodies, 2 for closures and pool; thorough: 2, and 3 for closures and pool) is executed under a cooperative scheduler with a scheduling point before every statement of package xpath (AST instrumentation via go build -overlay) and at every lock/pool operation (blocking modelled, pool made a deterministic shared LIFO); oracle per execution: every thread observes exactly what the same call observes alone on a fresh compile; deadlock and invariant checks at every point; the default schedule is replayed twice and must give identical traces. Separately the same scenario bodies run free under `-race` (20 runs each). states/transitions = scheduling points executed, traces = executions; non-trivial/distinct = scenarios explored",
 		Assumptions:    []string{"statement granularity under sequential consistency (a single Go statement is explored as atomic)", "plain-memory data races are decided by the separate free-running -race pass, not by the scheduler", "preemption bound 1-3, 2-3 threads, 5-node document"},
-		Budget:         budget(100*time.Second, 60*time.Minute),
+		Budget:         budget(300*time.Second, 60*time.Minute),
 		ItemTimeout:    budget(6*time.Minute, 70*time.Minute), // one item = one scenario slice explored to its bound
 		MinRefOutcomes: 1,
 		WorkerProcs:    1,
